@@ -13,7 +13,8 @@ OutFile == IOEnv.OUT
 CovKeys == {"rows", "ctor_rows", "ctor_valid", "ctor_invalid", "svd_rows", "svd_valid", "shape_rows", "shape_square", "sigma_rows",
             "init_rows", "rule_rows", "rule_valid", "after_rows", "classes"}
 Bump(c, key, by) == [c EXCEPT ![key] = @ + by]
-Hit(rule, e) == [r |-> rule, run |-> 1, l |-> l]
+RunOf(k) == Cardinality({i \in 1 .. k : Tr[i].e = "Reset"})
+Hit(rule, e) == [r |-> rule, run |-> RunOf(l), l |-> l]
 If(c, rule, e) == IF c THEN {} ELSE {Hit(rule, e)}
 AddHits(m, new) == IF Cardinality(m) > 300 THEN m ELSE m \cup new
 
